@@ -148,6 +148,8 @@ class Interp:
     def compare(self, op, left, right, node):
         """Decide a comparison; return bool, a Sym condition, or raise Undecided."""
         if isinstance(op, ast.Is):
+            if isinstance(left, Sym) and isinstance(right, Sym) and left.op == right.op and left.op in _SINGLETON_OPS:
+                return left == right  # enum members and module-level sentinels are singletons
             return left is right or (_plain(left) and _plain(right) and left == right and (left is None or isinstance(left, bool)))
         if isinstance(op, ast.IsNot):
             r = self.compare(ast.Is(), left, right, node)
@@ -172,6 +174,11 @@ class Interp:
                 }[type(op)]()
             except TypeError:
                 pass
+        if isinstance(op, (ast.Eq, ast.NotEq)) and isinstance(left, (tuple, list)) and isinstance(right, (tuple, list)) \
+                and _all_plain(left) and _all_plain(right):
+            r = (type(left) is type(right) or {type(left), type(right)} <= {tuple} or isinstance(left, type(right)) or isinstance(right, type(left))) \
+                and list(left) == list(right)
+            return r if isinstance(op, ast.Eq) else not r
         if isinstance(op, ast.Eq) and (left is right):
             return True
         if isinstance(op, (ast.Eq, ast.NotEq)) and isinstance(left, (Sym, Obj)) and isinstance(right, (Sym, Obj)):
@@ -324,8 +331,11 @@ class Interp:
             a = fn.args
             params = [x.arg for x in a.posonlyargs + a.args]
             defaults = list(a.defaults)
-            if clo.self_obj is not None:
-                args = [clo.self_obj] + list(args)
+            if clo.self_obj is not None and not (isinstance(f, Func) and f.is_static):
+                bound = clo.self_obj
+                if isinstance(f, Func) and getattr(f, "is_classmethod", False):
+                    bound = clo.self_obj.cls if isinstance(clo.self_obj, Obj) else clo.self_obj
+                args = [bound] + list(args)
             n_req = len(params) - len(defaults)
             for i, p in enumerate(params):
                 if i < len(args):
@@ -589,6 +599,17 @@ class Interp:
                 mth = self.repo.resolve(base.cls, attr, "method")
                 if mth is not None:
                     return Closure(mth, self_obj=base)
+                # class-level attribute (`x = []` in the class body): ONE value shared by all instances
+                for k in self.repo.mro(base.cls):
+                    if attr in k.attrs and not isinstance(k.attrs[attr], (ast.FunctionDef, ast.Lambda)):
+                        shared = self.repo.__dict__.setdefault("_class_level_values", {})
+                        key = (k.name, attr)
+                        if key not in shared:
+                            try:
+                                shared[key] = self.eval(k.attrs[attr], {}, k.module if hasattr(k, "module") else mod)
+                            except AnalysisError:
+                                break
+                        return shared[key]
         if isinstance(base, (list, dict, set)) and attr in _CONTAINER_METHODS:
             return Sym("bound", attr, _Box(base))
         if isinstance(base, Class):
@@ -1020,6 +1041,10 @@ def _keep(p):
     return repr(p)
 
 
+def _all_plain(seq):
+    return all(_plain(x) or (isinstance(x, (tuple, list)) and _all_plain(x)) for x in seq)
+
+
 def _plain(v):
     return v is None or isinstance(v, (bool, int, float, str))
 
@@ -1047,6 +1072,7 @@ _BIN = {
     ast.Mod: lambda a, b: a % b,
 }
 _BINSYM = {ast.Add: "add", ast.Sub: "sub", ast.Mult: "mul", ast.Div: "div"}
+_SINGLETON_OPS = {"enum", "nomask"}
 _BUILTINS = {
     "len", "isinstance", "enumerate", "reversed", "range", "list", "tuple", "set", "dict",
     "zip", "any", "all", "min", "max", "bool", "str", "id", "sorted", "map", "print",
